@@ -183,8 +183,11 @@ class PreemptivePriorities(O.Monitor):
             if not (newcomer.priority_class < vic[0][1]):
                 rep("preemptor-has-strictly-higher-priority", {"node": nid, "victim": vic[0], "newcomer": [newcomer.id_number, newcomer.priority_class]})
             opt = self.spec["nodes"][nid - 1]["prio_preempt"]
-            last = victim.data_records[-1] if victim.data_records else None
-            if last is None or last.record_type != "interrupted service" or last.exit_date != tt or last.node != nid:
+            # (a reroute chain can move the victim on and interrupt it again elsewhere within the same event: look at all
+            # records written at this instant, not only the last one)
+            hit = [r for r in victim.data_records if r.record_type == "interrupted service" and r.exit_date == tt and r.node == nid]
+            if not hit:
+                last = victim.data_records[-1] if victim.data_records else None
                 rep("interruption-is-recorded", {"node": nid, "victim": victim.id_number,
                                                  "last_record": None if last is None else [last.record_type, last.node, O._num(last.exit_date)]})
             if opt == "reroute":
